@@ -103,6 +103,33 @@ pub fn build(spec: &CorpusSpec, repo: &Path, verif: &Path) -> Vec<Case> {
         let mut rng = Prng::new(s);
         cases.push(crate::gen::program(&mut rng, &format!("gen/{i}")));
     }
+    // padded copies: the same programs in files that cross typical buffer sizes (8 KiB, 64 KiB,
+    // 1 MiB); they are cases of their own, so the golden run decides what they compile to
+    {
+        let sizes = [8191usize, 8192, 8193, 65_537, (1 << 20) + 3];
+        let n = cases.len();
+        for (k, size) in sizes.iter().enumerate() {
+            let s = mix(spec.seed ^ tag("pad") ^ (k as u64));
+            let mut rng = Prng::new(s);
+            let src = cases[rng.below(n)].clone();
+            let mut text = src.text.to_string();
+            let style = rng.below(3);
+            while text.len() < *size {
+                match style {
+                    0 => text.push_str("\n// padding padding padding padding padding padding padding padding"),
+                    1 => text.insert_str(0, "/* padding padding padding padding padding padding padding */\n"),
+                    _ => text.push_str("\n                                                                "),
+                }
+            }
+            cases.push(Case {
+                id: format!("pad/{size}<{}", src.id),
+                origin: "padded",
+                text: Arc::from(text),
+                args: src.args.clone(),
+                witness: src.witness.clone(),
+            });
+        }
+    }
     let pool = cases.len();
     for i in 0..spec.mutated {
         let s = mix(spec.seed ^ tag("mut") ^ (i as u64));
